@@ -529,9 +529,11 @@ func (ndb *nodeDB) deleteVersion(version int64, cache *rootkeyCache) error {
 		}
 		// the root should be reformatted to (version, 0); it is written before the
 		// literal root is deleted so that a flush of the batch in between never
-		// leaves the store without either of them
-		root.nodeKey.nonce = 0
-		if err := ndb.saveNodeFromPruning(root); err != nil {
+		// leaves the store without either of them. The node may be shared with
+		// concurrent readers through the node cache, so a copy is re-keyed.
+		rekeyed := *root
+		rekeyed.nodeKey = &NodeKey{version: root.nodeKey.version, nonce: 0}
+		if err := ndb.saveNodeFromPruning(&rekeyed); err != nil {
 			return err
 		}
 		// ensure that the given version is not included in the root search
